@@ -83,6 +83,10 @@ def run_property(pid, tier):
             for q, r in list(results.items()):
                 if "fault" in r or not (q in roots or needed.get(q)):
                     continue
+                if any(n.startswith("global ") and "module_init" in n for n in r["notes"]) and "lemma.ed_module_init" not in results \
+                        and "lemma.ed_module_init" not in roots:
+                    roots.append("lemma.ed_module_init")
+                    newq.add("lemma.ed_module_init")
                 for a in r["axioms"]:
                     if a.startswith("ILAW-"):
                         for impl in IMPLEMENTATIONS:
@@ -124,6 +128,20 @@ def run_property(pid, tier):
     extra_ob = []      # dicts: name, backend, status, detail
     if cfg.extra is not None:
         extra_ob = cfg.extra(pid, tier, repo, reg, results) or []
+    # T1 lemma schemas instantiated in the relevant proofs: their Lean theorems must check
+    from . import leanback, theory
+    t2_used = []
+    used_lemmas = sorted({a.split(":", 1)[1] for q, r in results.items() if "fault" not in r and (q in roots or needed.get(q))
+                          for a in r["axioms"] if a.startswith("T1:") or a.startswith("T2:")})
+    for ln in used_lemmas:
+        ln0 = ln.split(" ")[0]
+        st, detail = leanback.lemma_status(ln0)
+        if st == "assumed":
+            t2_used.append("T2 (cited, not machine-checked here): %s - %s" % (ln0, theory.LEMMAS[ln0].doc if ln0 in theory.LEMMAS else ""))
+            continue
+        extra_ob.append(dict(name="lemma:%s" % ln0, backend="lean", status=st, detail=detail))
+    if any(l.split(" ")[0] in leanback.NEEDS_EDGROUP for l in used_lemmas):
+        t2_used.append("M-edgroup (T2, cited): (E(F_Q), Edwards addition) is an abelian group (associativity: Bernstein-Lange 2007, Hales 2016); the ed_* lemmas are proved in Lean for any AddCommGroup")
     for e in extra_ob:
         if e["status"] == "refuted":
             violations.append((e["backend"], dict(name=e["name"], kind=e["backend"], status="refuted", model=e.get("witness"),
@@ -196,7 +214,7 @@ def run_property(pid, tier):
             "known_findings_reproduced": known_lines,
             "closure_rounds": rounds,
         },
-        "assumptions": COMMON_ASSUMPTIONS + cfg.assumptions + sorted({n for q in fns for n in results[q]["notes"] if not n.startswith("dropped")}),
+        "assumptions": COMMON_ASSUMPTIONS + cfg.assumptions + t2_used + sorted({n for q in fns for n in results[q]["notes"] if not n.startswith("dropped")}),
         "wall_s": round(time.time() - t0, 2),
         "violations": len(real_violations),
     }
